@@ -111,6 +111,7 @@ def run_impl(case):
         out["thr"] = [enc(float(x)) for x in getattr(s, f)(targets)]
         out["thr_neg"] = [enc(float(x)) for x in getattr(ng, f)(targets)]
         out["thr_aff"] = [enc(float(x)) for x in getattr(af, f)(targets)]
+    out["mixed_dtype"] = tc.mixed_dtype_probe(pos, neg, kw.get("nb_easy_pos", 0), kw.get("nb_easy_neg", 0), case["sc"], case["ec"], targets)
     if len(pos) and len(neg):
         for name, o in (("", s), ("_neg", ng), ("_aff", af), ("_swap", sw)):
             t, e = o.eer()
@@ -135,6 +136,22 @@ def run_impl(case):
         out["ggcm_swap"] = [[int(v) for v in m.reshape(-1)] for m in g.swap().group_cm(thr).matrix.reshape(-1, 2, 2)]
         out["gfpr"] = [enc(float(v)) for v in np.asarray(g.group_fpr(thr)).reshape(-1)]
         out["gfnr_swap"] = [enc(float(v)) for v in np.asarray(g.swap().group_fnr(thr)).reshape(-1)]
+        # named groups listed by the caller in a non-alphabetical order (and a subset of them): matched BY NAME, the group's
+        # matrix is that of the filtered data, and the swapped object's is its transpose
+        lab = np.array(["young", "adult", "senior"])
+        pgn, ngn = lab[np.arange(len(pos)) % 3], lab[(np.arange(len(neg)) + 1) % 3]
+        named = []
+        present = set(pgn) | set(ngn)
+        for names in (["young", "adult", "senior"], ["senior", "young"]):
+            names = [n_ for n_ in names if n_ in present]
+            if len(names) < 2:
+                continue
+            gn = GroupScores(pos, neg, pos_groups=pgn, neg_groups=ngn, score_class=case["sc"], equal_class=case["ec"], group_names=names)
+            gns = gn.swap()
+            for nm in names:
+                ref = Scores(pos[pgn == nm], neg[ngn == nm], score_class=case["sc"], equal_class=case["ec"])
+                named.append([",".join(names) + ":" + nm, mats(gn[nm], thr), mats(gns[nm], thr), mats(ref, thr)])
+        out["named"] = named
     return out
 
 
@@ -174,6 +191,8 @@ def oracle(case, res):
     r = res["ok"]
     fails = []
     cfg = case["sc"] + "-" + case["ec"]
+    if r.get("mixed_dtype"):
+        fails.append((f"C08/thresholds/int-typed-class/{cfg}", r["mixed_dtype"]))
     for j, m in enumerate(r["cm"]):
         if r["cm_swap"][j] != [m[3], m[2], m[1], m[0]]:
             fails.append((f"C08/swap-cm/{cfg}", f"threshold {case['thr'][j]}: cm {m}, swapped object's cm {r['cm_swap'][j]}"))
@@ -210,6 +229,13 @@ def oracle(case, res):
         for j, m in enumerate(r["ggcm"]):
             if r["ggcm_swap"][j] != [m[3], m[2], m[1], m[0]]:
                 fails.append((f"C08/group-swap-group-cm/{cfg}", f"per-group cm #{j}: {m} vs swapped object's {r['ggcm_swap'][j]}"))
+        for tag, a_, b_, c_ in r.get("named") or []:
+            if a_ != c_:
+                fails.append((f"C08/group-by-name/{cfg}", f"group_names {tag}: cm of the group view {a_} differs from the cm of the filtered data {c_}"))
+                break
+            if b_ != [[m[3], m[2], m[1], m[0]] for m in a_]:
+                fails.append((f"C08/group-swap-by-name/{cfg}", f"group_names {tag}: cm {a_}, the swapped object's view of the same group has {b_}"))
+                break
         if r["gfpr"] != r["gfnr_swap"]:
             fails.append((f"C08/group-swap-rates/{cfg}", f"group_fpr {r['gfpr']} != group_fnr of the swapped object {r['gfnr_swap']}"))
     a, b = F(case["a"]), F(case["b"])
